@@ -4,33 +4,33 @@ import json, subprocess
 
 CLAIMED = {
  "C04": dict(section="4/C04", scenario="tx-history",
-   text="Seeded exploration of API-call histories (all 14 mutators x all 14 sighash flag values x clone forks x wire/JSON/CBOR restarts) on 1-4 live Transaction objects; after every event every live object is compared with a freshly parsed copy (preimage/signature equality, memo-slot invariant through the verif hook, model serialisation, fork isolation). Sampling, not proof: evidence of absence over the histories explored; the defect pattern has length 3 and quick covers 20k histories of length 5-40.",
-   note="Trusted: Transaction::from_bytes(to_bytes()) yields a history-free object (wire parse never fills the cache - checked by the restart oracle); the verif hook verif_hash_cache is a faithful read-only view; reference serialiser in scen_txhist.rs.",
-   technique="deterministic simulation: seeded API-history scheduler with fork/restart events, differential oracle against a history-free copy"),
- "C16": dict(section="4/C16", scenario="interp-driver",
-   text="Seeded exploration of generated programs (all opcode bytes incl. reserved/disabled/template pseudo-opcodes, Coinbase bits, nested conditionals, edge-encoded operands, spending-transaction context with real signatures, separators inside spliced branches) under seeded driver schedules (next / next_n / run / accessors / clone-forks on up to 3 interpreters) while the worker's real fd 1 is made to fail (ENOSPC via /dev/full, EPIPE, EAGAIN after N bytes, EBADF control) and healed. Oracles: no panic (site#opcode), bounded step count, every schedule observes the reference single-step trace state for state and ends in its outcome, stacks unchanged after an error and after None. Sampling; quick = 20k programs x schedules.",
-   note="Reference trace is the library itself single-stepped with a healthy stdout (self-consistency, not opcode semantics - that is C14). Programs whose next step would allocate > ~1 MiB per operand are dropped; allocator-exhaustion aborts are a `resource` outcome because C16 does not bound memory. overflow-checks are on (as in the repo's own test profile).",
-   technique="deterministic simulation: seeded driver-schedule scheduler over the interpreter step machine with stdout fault injection (real fd 1), differential oracle against a single-step reference trace"),
- "C09": dict(section="4/C09", scenario="artefact-medium",
-   text="Seeded exploration over 55 public decoding entry points: a producer makes a valid artefact with the real encoder, a medium applies 0-3 faults (truncate, bit flip, byte set, length-field inflation with 28 compact-size/PUSHDATA/CBOR-head patterns at located or seeded offsets, junk, splice, duplication, emptying, random replacement, conditional nesting to 2*10^5), optionally misdelivers it to another decoder, and the real decoder runs in a worker process whose allocator refuses any request lifting live heap above 1024*len+1MiB. Panics are caught with their site; allocator exhaustion, native stack overflow and hangs kill the worker and are attributed to run and decoder by the parent through a shared-memory breadcrumb. Sampling; quick = 60k artefacts.",
-   note="alpha=1024/beta=1MiB calibrated at 4x the largest fault-free peak/len ratio (histogram in evidence on every run); CBOR decoders get beta=320MiB because serde pre-allocates min(declared, 1MiB) per sequence and ciborium recurses <=256 levels (a constant, not a declared length). Inputs to base58 decoders are capped at 8KiB (quadratic time; the property does not bound time). Scenario code runs on an explicit 8MiB stack. Known finding: recursive conditional parser overflows the stack at ~10^5 nesting (8 decoder kinds).",
-   technique="deterministic simulation: seeded producer/medium/consumer pipeline with storage-fault injection, budgeted allocator and worker-process death attribution"),
+   text="Seeded exploration of API-call histories on 1-4 live Transaction objects: a systematic prefix enumerates every sequence of depth <=3 (quick) / <=4 (thorough) over a 35-operation alphabet (every mutator with the argument variants that matter, every cache-filling flag class, out-of-range SINGLE, sign, hash_inputs, fork, switch-object, restart), followed by seeded random histories of 5-40 calls (all 14 mutators x all 14 flag values x clone forks x wire/JSON/CBOR restarts). After every event every live object is compared with a freshly parsed copy: preimage / signature / Ok-vs-Err equality, every filled memo slot (seen through the verif hook) equals what a history-free object computes, model serialisation, no cross-object change of contents. Sampling beyond the enumerated depth; quick = 80k histories.",
+   note="Trusted: Transaction::from_bytes(to_bytes()) yields a history-free object; the hook verif_hash_cache is a faithful read-only view (a HashCache refactor breaks it at compile time -> exit 2); reference serialiser in scen_txhist.rs. A hang inside a library call (e.g. a lock shared between clones) is reported as class timeout after confirmation in a fresh process with a 240 s watchdog.",
+   technique="deterministic simulation: seeded (and depth-bounded enumerated) API-history scheduler with fork/restart events, differential oracle against a history-free copy"),
  "C05": dict(section="4/C05", scenario="ecdsa-net",
-   text="Seeded exploration of signing-world histories: every signing entry point (deterministic nonce in both byte-order modes, randomised nonce with its 32-byte OS-entropy draw scripted through the hook as uniform/zeros/ones/>=n/n-1/repeat, caller nonce, pre-hashed digest, sign_message) x both hashes x compressed/uncompressed keys biased to 1,2,3,n-1,n-2 and near n; signatures travel to four real verification entry points and a textbook verifier correctly paired, mispaired (message/hash/key) or replayed; requests are re-issued later under other entropy scripts; ECDH on both sides. Oracles: own signature verifies at both verifiers, mispairings rejected by both, s <= n/2, deterministic entry points draw 0 entropy bytes and are reproducible, randomised draws exactly 32 bytes and is a function of them, every signature equals bit-for-bit an independent RFC 6979 (incl. section 3.6 variant over SHA-256 / double-SHA-256) + textbook signing + low-S computation, ECDH symmetric and equal to x(a*B). Sampling; quick = 20k histories.",
-   note="Trusted: k256 scalar/point arithmetic (shared by both sides), sha2. RFC 6979 equality and the reference half of ECDH are reference-model oracles with no simulator dimension of their own; they ride in this world because it exists for the entropy clause. Entropy is owned through the cfg(bsv_verif) hook; with the guard off the library uses OsRng as shipped.",
+   text="Seeded exploration of signing-world histories: every signing entry point (deterministic nonce in both byte-order modes, randomised nonce with its OS-entropy draw scripted through the hook, caller nonce incl. private keys solved so that the raw s is exactly (n-1)/2, (n+1)/2, 1 or n-1, pre-hashed digest incl. caller-chosen digests 0 / n-1 / n / >n / ff..ff, sign_message) x both hashes x compressed/uncompressed keys biased to 1,2,3,n-1,n-2 and near n x messages from 0 bytes over the SHA-256 block boundaries to >64 KiB; signatures travel to five real verification entry points and a textbook verifier, correctly paired (also with the key in the other SEC1 encoding), mispaired (message / hash / other key / negated key) or replayed; requests are re-issued later under other entropy scripts and with other private keys; ECDH on both sides. Oracles: own signature verifies at both verifiers, mispairings rejected by both, s <= n/2, deterministic entry points reproducible and bit-for-bit equal to an independent RFC 6979 + textbook signing + low-S computation, the randomised signer's output changes with its draw, ECDH symmetric and equal to x(a*B). Sampling; quick = 20k histories.",
+   note="Trusted: k256 scalar/point arithmetic (both sides), sha2. How the randomised signer uses its draw, and how many bytes anybody draws, is recorded as probes only (the statement does not prescribe it). RFC 6979 equality and the reference half of ECDH are reference-model oracles riding in this world. One algebraic degenerate case is skipped: message scalar 0 with the negated key.",
    technique="deterministic simulation: scripted OS-entropy seam + two-party exchange with mispairing/replay faults, reference-peer oracles"),
+ "C09": dict(section="4/C09", scenario="artefact-medium",
+   text="Seeded exploration over 57 public decoding entry points: a producer makes a valid artefact with the real encoder (incl. coinbase-shaped inputs, structurally valid keys with unusable key material, scripts nested to 2*10^5), a medium applies 0-3 faults (truncate, bit flip, byte set, length-field inflation with 39 compact-size/PUSHDATA/CBOR-head patterns at located heads or seeded offsets, CBOR array nesting to 2*10^5, JSON value substitution, text token substitution/insertion, junk, splice, duplication, emptying, random replacement), optionally misdelivers it to another decoder, and the real decoder runs in a worker whose allocator refuses any request lifting live heap above 1024*len+8MiB (and whose largest single request is bounded likewise). Panics are caught with their site; allocator exhaustion, native stack overflow and hangs kill the worker and are attributed to run and decoder by the parent through a shared-memory breadcrumb. Sampling; quick = 300k artefacts.",
+   note="alpha calibrated at 4x the largest fault-free peak/len ratio (histogram in evidence on every run); CBOR decoders get beta=320MiB because serde pre-allocates min(declared, 1MiB) per sequence and ciborium recurses <=256 levels (a constant, not a declared length) - the single-request bound still applies. Inputs to base58 decoders are capped at 8KiB (quadratic time; the property does not bound time). Scenario code runs on an explicit 8MiB stack. Known finding: recursive conditional parser overflows the stack at ~29 000 nesting (8 decoder kinds).",
+   technique="deterministic simulation: seeded producer/medium/consumer pipeline with storage-fault injection, budgeted allocator and worker-process death attribution"),
  "C11": dict(section="4/C11", scenario="ecies-net",
-   text="Seeded exploration of exchange histories between a real sender, a real recipient, an independent BIE1 peer and a corrupting channel: five encryption entry points incl. the ephemeral-key one whose key comes from the scripted entropy seam (0-3 rejected candidates first), keys biased to 1,2,n-1,n-2, message lengths over every residue mod 16 up to 32 KiB; channel flips single bits in magic/embedded key/body/MAC and replays; delivery to real or reference recipient with the sender key known or taken from the ciphertext, right or wrong keys. Oracles: intact+right keys decrypts to the message in all four sender/recipient pairings (also after serialise/parse), the library's wire bytes equal the peer's, any flip outside the magic or any wrong key yields an error never plaintext, replay is stable, the ephemeral path draws exactly (k+1)*32 bytes. Sampling; quick = 20k exchanges.",
-   note="RefPeer = BIE1 written against k256 arithmetic, sha2, a hand-written CBC/PKCS7 over the aes block cipher and textbook HMAC. A flip inside the 4 magic bytes must give an error or exactly the message (statement does not list the magic). Truncation/extension belong to C09.",
+   text="Seeded exploration of exchange histories between a real sender, a real recipient, an independent BIE1 peer and a corrupting channel: five encryption entry points incl. the ephemeral-key one whose randomness comes from the scripted entropy seam (0-3 rejected candidates first), keys biased to 1,2,n-1,n-2, compressed and uncompressed recipient keys, message lengths over every residue mod 16 up to 64 KiB with tails that look like PKCS#7 padding; the channel flips single bits in magic / embedded key / body / MAC and replays; delivery to the real or the reference recipient with the sender key known or taken from the ciphertext, right or wrong keys, on a freshly parsed ciphertext object or on one that was already opened. Oracles: intact + right keys decrypts to the message in all sender/recipient pairings (also after serialise/parse), the library's wire bytes equal the peer's (for the ephemeral path: the peer opens it with the recipient key), any flip outside the magic or any wrong key yields an error never plaintext, replays are stable. Sampling; quick = 40k exchanges.",
+   note="RefPeer = BIE1 written against k256 arithmetic, sha2, a hand-written CBC/PKCS7 over the aes block cipher and textbook HMAC. A flip inside the 4 magic bytes must give an error or exactly the message. How the ephemeral key is derived from the draw is recorded as a probe only. Truncation/extension belong to C09.",
    technique="deterministic simulation: scripted OS-entropy seam + two-party exchange over a bit-flipping/replaying/misdelivering channel, reference-peer oracles"),
  "C13": dict(section="4/C13", scenario="digest-stream",
-   text="Seeded exploration of feeding schedules over 1-3 live digest sinks (Sha256r, Sha256d, Hash160 and hmac::Hmac over each): messages with lengths on every padding/block boundary are cut by six fragmentation policies (1-byte dribble, block-aligned, cut at 55/56/57/63/64/65/111/112/119/120/127/128, random, zero-length fragments interleaved, one-shot) into update calls, with clone-forks, reverse(), reset and four finishing calls placed mid-stream, second messages after *_reset, plus the one-shot Hash::*, Hash::*_hmac and KDF::pbkdf2 entry points. Oracle: every finalisation equals the primitive-crate hash of exactly the bytes accepted since the last reset (reversed iff obtained through reverse()), forks are independent; HMAC/PBKDF2 equal textbook RFC 2104 / RFC 8018 compositions. Sampling; quick = 100k schedules.",
-   note="sha2 / sha-1 / ripemd160 crates are the reference for the published algorithms. The adapters' io::Write impl is compiled out in every build of bsv (digest::impl_write! is gated on a `std` feature bsv does not define), so the io::Write fragmentation path of DESIGN.md does not exist and is not exercised. Reversed instances are never reset. HMAC/PBKDF2 and SHA-1/SHA-512/RIPEMD one-shots are reference-model oracles without a schedule dimension.",
+   text="Seeded exploration of feeding schedules over 1-3 live digest sinks (Sha256r, Sha256d, Hash160 and hmac::Hmac over each): messages with lengths on every padding/block boundary are cut by six fragmentation policies (1-byte dribble, block-aligned, cut at 55/56/57/63/64/65/111/112/119/120/127/128, random, zero-length fragments interleaved, one-shot) into update calls, with clone-forks, reverse(), reset and four finishing calls placed mid-stream (also on reversed instances), second messages after *_reset, plus the one-shot Hash::*, Hash::*_hmac (keys below/at/above the block size, the same key through all six hashes in a row) and KDF::pbkdf2 (output lengths on and around multiples of the hash length, passwords of exactly one block). Oracle: every finalisation equals the primitive-crate hash of exactly the bytes accepted since the last reset (reversed iff obtained through reverse()), forks are independent; HMAC/PBKDF2 equal textbook RFC 2104 / RFC 8018 compositions. Sampling; quick = 100k schedules.",
+   note="sha2 / sha-1 / ripemd160 crates are the reference for the published algorithms. The adapters' io::Write impl is compiled out in every build of bsv (digest::impl_write! is gated on a `std` feature bsv does not define), so that fragmentation path does not exist. Assumption: an instance obtained through reverse() stays reversed across reset (what the shipped adapters do). HMAC/PBKDF2 and SHA-1/SHA-512/RIPEMD one-shots are reference-model oracles without a schedule dimension.",
    technique="deterministic simulation: seeded fragmentation/fork/reset scheduler over streaming digest sinks, model-based oracle"),
  "C15": dict(section="4/C15", scenario="spend-net",
-   text="Seeded exploration of collaborative-build histories on one shared Transaction: builders append inputs/outputs, signers sign P2PK / P2PKH / m-of-n multisig inputs (CHECKSIG and *VERIFY forms, code separators at seeded positions incl. inside and after an always-taken OP_IF) through Transaction::sign with any of the 12 standard flag bytes at any point of the build, finalise assembles unlocking scripts through the library API, parties mutate one field after signing (version, locktime, own/other outpoint, own/other sequence, output value/script, output/input count, declared value, key byte, signature byte, flag byte, signature order, wrong signer), a byzantine peer signs the byte-reversed digest, the transaction is shipped through extended CBOR/JSON, and the validator runs Interpreter::from_transaction on the live object and the shipped copy. Oracle: accept iff every used signature's covered view (field table per flag, FORKID and legacy) is unchanged since signing, keys/order match and nothing was tampered - checked in both directions; live and shipped verdicts agree. Sampling; quick = 15k histories.",
-   note="The covered-view table is the model (40 lines, field level, not a byte-level preimage: byte layout is C03/C10). Value mutations are not generated for legacy-flag signatures (the original algorithm does not commit to the value). Ship applied only when faithful. Known findings: reversed-digest signatures accepted; separators inside/after a spliced conditional give the wrong subscript.",
-   technique="deterministic simulation: seeded multi-party sign/mutate/finalise/ship/validate scheduler with byzantine signer and tampering faults, covered-view model oracle"),
+   text="Seeded exploration of collaborative-build histories on one shared Transaction: builders append / insert / prepend / replace inputs and outputs (incl. counts at 252/253), signers sign P2PK / P2PKH / m-of-n multisig (incl. duplicate and uncompressed keys) / two-check inputs (CHECKSIG and *VERIFY forms, code separators at seeded positions incl. inside and after taken conditionals with and without else branches, scripts padded across the 75/76, 252/253 and 64 KiB boundaries) with any of the 12 standard flag bytes at any point of the build, either through Transaction::sign or as an honest reference peer that signs an independently computed specified preimage; finalise assembles unlocking scripts through the library API; parties mutate one field after signing (version, locktime, own/other outpoint, own/other sequence, output value/script, counts, declared value, a byte anywhere in the used key, a signature byte, an extra byte before the flag, the flag byte, signature order, duplicate signer, wrong signer); a byzantine peer signs the byte-reversed digest; the transaction is shipped through extended CBOR/JSON; the validator runs on the live object and the shipped copy, also with stdout failing. Oracles: accept iff every used signature's covered view (field table per flag) is unchanged since signing, keys/order match and nothing is tampered - both directions; every library signature verifies under a textbook verifier over the reference preimage; live and shipped verdicts agree. Sampling; quick = 15k histories.",
+   note="Model = covered-view table (~60 lines) + reference preimage (~90 lines, FORKID digest and original algorithm, no library code) + textbook ECDSA. Value mutations are not generated for legacy-flag signatures. Ship applied only when faithful. Known findings: reversed-digest signatures accepted; separators inside/after a spliced conditional give the wrong subscript.",
+   technique="deterministic simulation: seeded multi-party sign/mutate/finalise/ship/validate scheduler with honest and byzantine reference signers and tampering faults, covered-view + reference-preimage oracle"),
+ "C16": dict(section="4/C16", scenario="interp-driver",
+   text="A systematic prefix enumerates every parseable opcode byte on every stack of depth 0-3 over an operand alphabet of 18 edge encodings, each stepped, forked and run; then seeded exploration of generated programs (all opcode bytes incl. reserved/disabled/template pseudo-opcodes, Coinbase bits, nested conditionals, edge-encoded operands incl. +-2^31 as 5-byte numbers, spending-transaction context with real signatures, wide CHECKMULTISIG, separators inside spliced branches, rarely 2*10^5-deep nesting) under seeded driver schedules (next / next_n / run / accessors / clone-forks on up to 3 interpreters) while the worker's real fd 1 is made to fail (ENOSPC via /dev/full, EPIPE, EAGAIN after N bytes, EBADF control) and healed. Oracles: no panic (site#opcode), bounded step count, every schedule observes the reference single-step trace state for state and ends in its outcome, stacks unchanged after an error (also on repeated calls) and after None. Sampling beyond the enumerated part; quick = 110k programs x schedules.",
+   note="Reference trace is the library itself single-stepped with a healthy stdout (self-consistency, not opcode semantics - that is C14). Programs whose next step would allocate > ~1 MiB per operand are dropped; allocator-exhaustion aborts are a `resource` outcome because C16 does not bound memory. overflow-checks are on (as in the repo's own test profile). Known finding: ScriptBit's derived recursive Clone/Drop overflow the stack beyond ~37 000 nesting (constructed scripts only; the parser stops earlier).",
+   technique="deterministic simulation: seeded (and enumerated per-opcode) driver-schedule scheduler over the interpreter step machine with stdout fault injection (real fd 1), differential oracle against a single-step reference trace"),
 }
 
 NA = {
